@@ -97,6 +97,12 @@ def _run_sym(h, case, payload):
     t0 = time.time()
     if h.setup:
         h.setup(case, 'sym')
+    if core.XCHECK['every']:
+        # jobs are short: start the sampling counter at a job-specific
+        # offset so that the sample is spread over all of them
+        import zlib
+        core.XCHECK['n'] = zlib.crc32(repr((h.name, case, seeds)).encode()
+                                      ) % core.XCHECK['every']
     ctx = core.SymCtx(max_paths=h.max_paths, max_s=h.max_s,
                       query_timeout_ms=h.query_timeout_ms)
     status = 'ok'
@@ -333,6 +339,8 @@ def main(argv=None):
     args = ap.parse_args(argv)
     prop = args.prop
     tier = args.tier if args.tier in ('quick', 'thorough') else 'quick'
+    core.XCHECK['every'] = int(os.environ.get(
+        'VERIF_XCHECK', '100' if tier == 'quick' else '40'))
     seed = int(os.environ.get('VERIF_SEED', '0') or 0)
     modname = f"harness.{prop}"
     # import in the parent so that forked children share loaded modules
@@ -567,7 +575,8 @@ def main(argv=None):
           f"paths={st['paths']} obligations={st['obligations']} "
           f"discharged={st['discharged']} violated={st['violated']} "
           f"unknown={st['unknown']} queries={st['queries']} "
-          f"solver_s={st['solver_s']:.1f} wall_s={wall:.1f} "
+          f"solver_s={st['solver_s']:.1f} cvc5_recheck="
+          f"{st['xagree']}/{st['xchecked']} wall_s={wall:.1f} "
           f"status={status} exit={exit_code}")
     for hn, d in summary.items():
         print(f"  {hn}: cases={d['cases']} paths={d['paths']} "
@@ -590,6 +599,14 @@ def main(argv=None):
                 'solver_queries': st['queries'],
                 'solver_s': round(st['solver_s'], 2),
                 'solver': 'z3 ' + _z3v(),
+                'second_solver': {
+                    'solver': 'cvc5 (python wheel), SMT-LIB text of the '
+                              "query's cone of influence, "
+                              f"{core.XCHECK['ms']} ms per query",
+                    'sampled_one_in': core.XCHECK['every'],
+                    'rechecked': st['xchecked'], 'agree': st['xagree'],
+                    'cvc5_unknown_or_timeout': st['xunknown'],
+                    'disagree': st['xdisagree']},
                 'exhaustive': status == 'ok',
                 'status': status,
                 'harnesses': {
